@@ -1056,10 +1056,14 @@ def op_cat(rng, cur, obs, spec, partname=None):
     if partname is None:
         partname = False if "cat-partname" in AVOID else rng.random() < 0.4
     i = rng.choice(list(obs.batch))
-    nparts = rng.choice([1, 2])
+    nparts = rng.choice([1, 2, 2])
     if partname == "focus":       # dedicated stream: sizes chosen so that the transposition is not caught by an assert
         i, nparts = "i", 1
     parts = []
+    # a batch input that only the discrete tables of mixture parts carry (no Gaussian factor has it)
+    free_tb = [n for n in BATCH_NAMES + ["m"] if n not in obs.batch and n != "c"]
+    tb = free_tb[0] if free_tb and rng.random() < 0.6 else None
+    tb_size = rng.choice([1, 2, 2, 3])
     others = [n for k, n in obs.batch.items() if k != i and n > obs.batch[i]]
     want_total = rng.choice(others) if others and rng.random() < 0.6 else None
     if want_total is not None:
@@ -1068,12 +1072,37 @@ def op_cat(rng, cur, obs, spec, partname=None):
         rl = [("r", k, s) for k, s in spec.reals.items()]
         bl = [("b", k, n) for k, n in spec.batch.items() if k != i and rng.random() < 0.8]
         psize = 1 if partname == "focus" else (want_total - obs.batch[i]) if want_total else rng.choice([1, 2])
+        if tb and not want_total and partname != "focus" and rng.random() < 0.6:
+            psize = tb_size              # equal-size coincidence between the cat axis and the table-only input
         order = rl + bl + [("b", i, psize)]
         rng.shuffle(order)
         h, hs, hexact, hdesc = make_gaussian(rng, order)
         ho = Obs(h)
         if not hexact:
             hs = Fn(hs.batch, hs.reals, fn_of_obs(ho).at)
+        if partname != "focus" and rng.random() < 0.6:
+            # mixture part: Tensor + Gaussian / Gaussian + Tensor; the table may carry batch inputs the Gaussian
+            # lacks (tb, other inputs of the cat) and lack some that the Gaussian has
+            tin = [(i, psize)] if rng.random() < 0.8 else []
+            tin += [(k, n) for k, n in spec.batch.items() if k != i and rng.random() < 0.5]
+            if tb and rng.random() < 0.8:
+                tin.append((tb, tb_size))
+            if rng.random() < 0.4:
+                rng.shuffle(tin)
+            tdata = dy_array(rng, tuple(n for _, n in tin))
+            T = Tensor(tdata, OrderedDict((k, Bint[n]) for k, n in tin))
+            tfirst = rng.random() < 0.6
+            h = T + h if tfirst else h + T
+            hb = dict(hs.batch)
+            hb.update(tin)
+
+            def hat(q, hs_=hs, tin_=tin, tdata_=tdata):
+                f = hs_.at(sub_point(q, hs_.batch))
+                tv = F(float(tdata_[tuple(q[k] for k, _ in tin_)]))
+                return lambda x: f(x) + tv
+            hs = Fn(hb, hs.reals, hat)
+            ho = Obs(h)
+            hdesc = dict(hdesc, mixture=dict(tensor_inputs=tin, tensor=tdata.tolist(), tensor_first=tfirst))
         parts.append((h, hs, ho, hexact, hdesc))
     pos = rng.randrange(nparts + 1)
     seq = parts[:pos] + [(cur, spec, obs, True, None)] + parts[pos:]
